@@ -202,6 +202,8 @@ def table_units(ctx):
         exp = float(1 / size)
         tol = 1e-5 if imperial else 1e-12
         if not close(per_base, exp, tol):
+            if name in BIT_FAMILY and close(per_base * 64, exp, tol):
+                continue        # exactly the known finding K1 (reported by the stream oracle with its key)
             bad.append((name, "factor %r, definition %r" % (per_base, exp)))
     rep.table_units_bad = bad
     return bad
@@ -212,7 +214,7 @@ def table_keywords(ctx):
     spell = spec_spellings()
     got = {}
     for k in ctx["dump"]["keywords"]:
-        got[k["word"]] = UNIT_ORDER[k["unit"]] if k["unit"] is not None else {23: "delete", 20: "cross", 25: "as_", 19: "dot", 24: "clear"}[k["tag"]]
+        got[k["word"]] = UNIT_ORDER[k["unit"]] if k["unit"] is not None else {23: "delete", 20: "cross", 25: "as_", 19: "dot", 24: "clear"}.get(k["tag"], "token kind %s" % k["tag"])
     bad = []
     for w, want in spell.items():
         if got.get(w) != want:
@@ -233,15 +235,13 @@ def search_tables(pid, ctx):
     found = False
     if pid in ("C05", "C06"):
         for name, why in table_units(ctx):
-            if name in BIT_FAMILY:
-                continue  # known finding, reported by the stream oracle
             rep.violation("unit table: %s has %s" % (name, why), oracle="row of the generated UnitTable vs the exact definition", found_input=True,
                           case="hist tbl 4 - %s" % hx("1 %s as %s\n" % (name, name)))
             found = True
-    if pid in ("C04", "C05"):
+    if pid in ("C03", "C04", "C05", "C18"):
         for w, got, want in table_keywords(ctx):
-            if want and want.startswith("yard") or (got and want is None and False):
-                continue
+            if want == "yard" and got == "foot":
+                continue        # exactly the known finding K2
             rep.violation("spelling table: %r denotes %s, documented %s" % (w, got, want), case="tok kw 4 %s" % hx(w),
                           oracle="generated Keywords table vs the documented spellings", found_input=True)
             found = True
@@ -673,6 +673,43 @@ def oracle_clear(ctx, name, a, b, cpath):
                         rep.violation("clear leaves user-defined names behind", case=engine.find_case(cpath, cid), impl=[l], stream=name,
                                       oracle="after `clear` the environment must be exactly the initial one")
     rep.count("oracle:clear judged", n)
+
+
+STMT_NAME = re.compile(r"^(=|D|X|S):\{\d+@\d+:\d+:([0-9a-f-]+)")
+
+
+def documented_builtin_names():
+    return set(l.strip() for l in open(os.path.join(core.VERIF, "spec", "builtin_names.txt"), encoding="utf-8") if l.strip())
+
+
+def oracle_guarded(ctx, name, a, b, cpath):
+    """C09 / C10: an assignment, definition, deletion or signature deletion whose target is a DOCUMENTED built-in name
+    (the list of the manual, not the table of the tree) must be refused with a diagnostic, whatever came before"""
+    rep = ctx["rep"]
+    names = documented_builtin_names()
+    n = bad = 0
+    for cid, lines in a.items():
+        target = {}
+        for l in lines:
+            p = l.split(" ")
+            if len(p) >= 3 and p[0][:1] == "T" and p[1][:1] == "S" and p[1][1:].isdigit():
+                m = STMT_NAME.match(p[2])
+                if m:
+                    try:
+                        target[(p[0], p[1][1:])] = unhx(m.group(2))
+                    except Exception:
+                        pass
+            elif len(p) >= 3 and p[0][:1] == "T" and p[1][:1] == "O" and (p[0], p[1][1:]) in target:
+                nm = target[(p[0], p[1][1:])]
+                if nm in names:
+                    n += 1
+                    if p[2] != "err":
+                        bad += 1
+                        if bad <= 3:
+                            rep.violation("a statement whose target is the built-in name %r is not refused" % nm, case=engine.find_case(cpath, cid), impl=[l],
+                                          stream=name, oracle="assignment to, definition on and deletion of a documented built-in name must produce a diagnostic")
+    rep.count("oracle:guarded statements judged", n)
+    rep.oblige("stream %s: every statement targeting a documented built-in name is refused (%d statements)" % (name, n), bad == 0, "%d accepted" % bad)
 
 
 LINE_COL = re.compile(r"^Line (\d+), Column (\d+) :: \S")
